@@ -15,7 +15,7 @@ import (
 // delivery of the next message (two-party: the following message is still delivered).
 func vh_C18_L1_rejected_writes_no_effect() {
 	il := vPick(2) == 1
-	a, b := vPair(vAssocOpts{interleaving: il, pickTSN: true})
+	a, b := vPair(vAssocOpts{interleaving: il, pickTSN: true, blockWrite: vPick(2) == 1})
 	a.maxMessageSize = 4
 	s, err := a.OpenStream(1, PayloadTypeWebRTCBinary)
 	vassert(err == nil, "open stream")
@@ -32,6 +32,7 @@ func vh_C18_L1_rejected_writes_no_effect() {
 		vassert(n == 0, "an empty write transfers nothing")
 	}
 	vassert(a.pendingQueue.size() == 0, "nothing is queued by the rejected / empty write")
+	vassert(vLocksFree(a, s) && !vMutexHeldNative(&s.writeLock), "and no lock is left held by it (also not the per-stream write lock of blocking-write mode)")
 	vassert(s.BufferedAmount() == 0, "buffered amount untouched")
 	vassert(s.sequenceNumber == ssn && s.nextOrderedMID == omid && s.nextUnorderedMID == umid, "no stream sequence number or message identifier is consumed")
 	// a write of exactly the maximum size is accepted, and is delivered
